@@ -14,7 +14,8 @@ static const char* KEY = REC_KEY;
 struct Ctx { const PlanLine& pl; Rng& r; std::string prop, thc, linc, hemi, dir, thc2, linc2; bool jac; };
 
 static G elemA(Ctx& c) { return draw_element<G>(c.thc, c.linc, c.hemi, c.dir, c.r); }
-static G elemD(Ctx& c) { return draw_element<G>(c.thc2, c.linc2, "any", c.dir, c.r); }
+// second operand: either hemisphere; de-normalised (within the acceptance threshold) when the first one is
+static G elemD(Ctx& c) { const bool dn = c.hemi.size() > 2 && c.hemi.compare(c.hemi.size() - 2, 2, "dn") == 0; return draw_element<G>(c.thc2, c.linc2, dn ? "anydn" : "any", c.dir, c.r); }
 static T tanA(Ctx& c) { return draw_tangent<G>(c.thc, c.linc, c.dir, c.r); }
 static T tanB(Ctx& c) { return draw_tangent<G>(c.thc2, c.linc2, "generic", c.r); }
 
